@@ -271,6 +271,37 @@ func runC08(c *Ctx, r *Run) {
 	}
 
 	r.Require("DEP-3", 4)
-	r.Require("DEP-4", 10)
+	// entry by entry: every write into the FROST verification-share table builds on the entry it replaces
+	if fn := c.LookupMethod("protocols/frost/keygen", "round3", "Finalize"); fn != nil {
+		k := 0
+		allInstrs(fn, func(in ssa.Instruction) {
+			mu, ok := in.(*ssa.MapUpdate)
+			if !ok || !containsField(paramFields(fn, mu.Map), "recv.verificationShares") {
+				return
+			}
+			k++
+			onPrev := dependsOn(mu.Value, func(v ssa.Value) bool {
+				switch x := v.(type) {
+				case *ssa.Extract:
+					if nx, isNext := x.Tuple.(*ssa.Next); isNext && x.Index == 2 {
+						if rg, isR := nx.Iter.(*ssa.Range); isR && containsField(paramFields(fn, rg.X), "recv.verificationShares") {
+							return true
+						}
+					}
+				case *ssa.Lookup:
+					if containsField(paramFields(fn, x.X), "recv.verificationShares") && (sameObject(x.Index, mu.Key) || path(x.Index) == path(mu.Key)) {
+						return true
+					}
+				}
+				return false
+			})
+			r.Check("DEP-4", fmt.Sprintf("%s|verificationShares entry #%d builds on the previous entry", c.FuncName(fn), k), c.Pos(mu.Pos()), onPrev,
+				"the new table entry is computed from the entry it replaces (previous public share + dealt increment, or its negation)",
+				"a verification-share entry is overwritten with a value that does not depend on the previous entry: after a refresh that party's public share is only the freshly dealt increment, the table no longer matches the shares")
+		})
+	} else {
+		r.Unresolved("DEP-4", "protocols/frost/keygen.(*round3).Finalize")
+	}
+	r.Require("DEP-4", 12)
 	r.Require("START-S2", 1)
 }
